@@ -451,3 +451,28 @@ def gen_ops(seed, n, shard):
         yield {"k": "pos", "x": fx(v0), "xf": v0, "r": fx(a()), "rs": _sg(a()), "rf": a(), "self": 1 if r is a else 0}
         b = Angle(x)
         yield {"k": "view", "v": fx(b()), "rad": fx(b.rad()), "ra": fx(b.get_ra()), "xf": b()}
+        # the same views of an object whose views were read before and that was then re-targeted through every documented
+        # way of setting it (also the argument-less reset): a view belongs to the value the object holds NOW
+        c = Angle(x)
+        c.rad(), c.get_ra(), c.dms_tuple()
+        y2 = rng.choice([12.5, -200.25, 359.0, 0.0009765625, rng.uniform(-360, 360)])
+        how = rng.randrange(9)
+        if how == 0:
+            c.set()
+        elif how == 1:
+            c.set(y2)
+        elif how == 2:
+            c.set(int(y2), 30, 15.5)
+        elif how == 3:
+            c.set((int(y2), 30, 15.5))
+        elif how == 4:
+            c.set(Angle(y2))
+        elif how == 5:
+            c.set_radians(math.radians(y2))
+        elif how == 6:
+            c.set_ra(y2 / 15.0)
+        elif how == 7:
+            c.set_ra()
+        else:
+            c.set(y2 / 15.0, ra=True)
+        yield {"k": "view", "v": fx(c()), "rad": fx(c.rad()), "ra": fx(c.get_ra()), "xf": c(), "how": how}
